@@ -61,7 +61,13 @@ def _structure_xml(name, pos):
 
 
 def write_vasprun(d: Path):
-    frames = [[(0.1 + 0.05 * t, 0.1, 0.1), (0.5, 0.5 + 0.03 * t, 0.5), (0.8, 0.2, 0.9 - 0.04 * t)] for t in range(T_FRAMES)]
+    _write_vasprun_file(d / 'vasprun.xml', 0.0)
+    # a sibling run in the same directory whose name agrees with the first up to the first dot
+    _write_vasprun_file(d / 'vasprun.run1.xml', 0.21)
+
+
+def _write_vasprun_file(path: Path, shift: float):
+    frames = [[(0.1 + 0.05 * t + shift, 0.1, 0.1), (0.5, 0.5 + 0.03 * t, 0.5 + shift), (0.8, 0.2, 0.9 - 0.04 * t)] for t in range(T_FRAMES)]
     calcs = ''
     for pos in frames:
         calcs += f''' <calculation>
@@ -134,7 +140,7 @@ def write_vasprun(d: Path):
 {_structure_xml('finalpos', frames[-1])}
 </modeling>
 '''
-    (d / 'vasprun.xml').write_text(xml)
+    path.write_text(xml)
 
 
 def write_gromacs(d: Path):
@@ -160,7 +166,7 @@ def write_gromacs(d: Path):
 
 LOADERS = {
     'lammps': (write_lammps, ['lmp.data', 'lmp.xyz']),
-    'vasprun': (write_vasprun, ['vasprun.xml']),
+    'vasprun': (write_vasprun, ['vasprun.xml', 'vasprun.run1.xml']),
     'gromacs': (write_gromacs, ['g.gro', 'g.xtc']),
 }
 
@@ -174,7 +180,8 @@ def call_loader(loader: str, d: Path, variant: dict):
         base.update(kw)
         return Trajectory.from_lammps(**base)
     if loader == 'vasprun':
-        return Trajectory.from_vasprun(d / 'vasprun.xml', **kw)
+        fname = kw.pop('_file', 'vasprun.xml')
+        return Trajectory.from_vasprun(d / fname, **kw)
     if loader == 'gromacs':
         base = dict(topology_file=d / 'g.gro', coords_file=d / 'g.xtc', temperature=300)
         base.update(kw)
@@ -187,6 +194,6 @@ VARIANTS = {
         {}, {'temperature': 500}, {'time_step': 2.0}, {'type_mapping': {'LI': 'Na', 'S': 'Se'}}, {'type_mapping': {'LI': 'K', 'S': 'Se'}}, {'type_mapping': {'LI': 'Na', 'S': 'Se', 'X': 'O'}},
         {'constant_lattice': False}, {'atom_style': 'charge'}, {'coords_format': 'XYZ'},
     ],
-    'vasprun': [{}, {'constant_lattice': False}, {'exception_on_bad_xml': False}, {'parse_dos': False}],
+    'vasprun': [{}, {'constant_lattice': False}, {'exception_on_bad_xml': False}, {'parse_dos': False}, {'_file': 'vasprun.run1.xml'}],
     'gromacs': [{}, {'temperature': 500}, {'constant_lattice': False}],
 }
